@@ -433,6 +433,22 @@ def def_value(store_node):
     return None
 
 
+def none_tests(c, text):
+    """[(test node, label meaning `<text> is None`, label meaning `<text> is not None`)] for every None-ness test of an expression."""
+    out = []
+    for t in c.nodes:
+        if t.kind != "test":
+            continue
+        a = is_none_test(t.ast)
+        if a is not None and unparse(a) == text:
+            out.append((t, "T", "F"))
+            continue
+        a = is_none_test(t.ast, negate=True)
+        if a is not None and unparse(a) == text:
+            out.append((t, "F", "T"))
+    return out
+
+
 def only_return_value(fn_ast):
     """Expression returned by the function when it has exactly one `return <expr>` (wherever it is nested)."""
     rets = [n for n in ast.walk(fn_ast) if isinstance(n, ast.Return) and n.value is not None]
